@@ -142,6 +142,9 @@ func (f *Function) Eval(s *Scope, depth int) (result Object) {
 			f.Args[i] = arg
 		}
 		v := s.Eval(arg, d2)
+		if IsExit(v) {
+			return v
+		}
 		if vs, ok := v.(Values); ok && !skip {
 			v = vs[0]
 		}
